@@ -80,6 +80,16 @@ def bridge_coverage():
         txt += open(os.path.join(LEAN, "SqModel", "Proofs", b + ".lean"), encoding="utf-8").read()
     return [n for n in names if not re.search(re.escape(n) + r"(?![A-Za-z0-9_])", txt)]
 
+def safe_coverage():
+    """propositions of Generated/TransSafe.lean that Proofs/Safe.lean never mentions"""
+    t = open(os.path.join(LEAN, "SqModel", "Generated", "TransSafe.lean"), encoding="utf-8").read()
+    m = re.search(r"def T\.safe_names : List String := \[(.*?)\]", t)
+    if not m:
+        return ["<list of safety propositions missing in TransSafe.lean>"]
+    names = re.findall(r'"([^"]+)"', m.group(1))
+    txt = open(os.path.join(LEAN, "SqModel", "Proofs", "Safe.lean"), encoding="utf-8").read()
+    return [n for n in names if not re.search(re.escape(n) + r"(?![A-Za-z0-9_])", txt)]
+
 def lean_forbidden_tokens():
     """grep the Lean tree (comments stripped) for anything that would weaken a proof"""
     hits = []
